@@ -1,44 +1,54 @@
-(* Property theorems for C16 -- statements only; proofs are `exact` of lemmas. *)
+(* Property theorems for C16 -- statements only; proofs are `exact` of lemmas.
+   v0 / v1: the source before / with the repairs proposed here (see Properties_C01.v). *)
 From Coq Require Import ZArith List.
-From GD Require Import C06.Convert C01.Field C01.Read C01.Inst C01.Witness C16.Limits C16.LimitsProofs C16.WitnessProofs.
+From GD Require Import C06.Convert C01.Field C01.Read C01.Inst C01.Witness C01.WitnessProofs C16.Limits C16.LimitsProofs C16.WitnessProofs.
 Import ListNotations.
 Local Open Scope Z_scope.
 
 (* Full statements (kept visible in C16/WitnessProofs.v):
-   count_is_eof_statement :=
-     forall A db f rt s n e, wf db f -> 0 <= s -> 0 <= n -> impl_eof db f = Some e ->
-       read_count A db rt f s n = Some (Z.min n (Z.max 0 (e - s)))
-   bof_is_first_real_statement :=
-     forall db f k, wf db f -> 0 <= k -> (is_real db f k = true <-> impl_bof db f <= k)
-   Both are false of the unchanged code. *)
-Theorem count_is_eof_refuted : ~ count_is_eof_statement.
+   count_is_eof_statement v :=
+     forall A db f rt s n e, wf db f -> 0 <= s -> 0 <= n -> impl_eof db v f = Some e ->
+       read_count A db v rt f s n = Some (Z.min n (Z.max 0 (e - s)))
+   bof_is_first_real_statement v :=
+     forall db f k, wf db f -> 0 <= k -> (is_real db f k = true <-> impl_bof db v f <= k)
+   Both are false of the unrepaired code. *)
+Theorem count_is_eof_refuted : ~ count_is_eof_statement v0.
 Proof. exact count_statement_refuted. Qed.
 
-Theorem bof_is_first_real_refuted : ~ bof_is_first_real_statement.
+Theorem bof_is_first_real_refuted : ~ bof_is_first_real_statement v0.
 Proof. exact bof_statement_refuted. Qed.
 
 (* gd_getdata returns exactly min(n, max(0, gd_eof - s)) samples: on the region
-   where the read path is proved (C01) and no PHASE pushed an end-of-field
-   below zero inside the field *)
+   where the read path is proved (C01) and either the end-of-field is clamped
+   only in gd_eof64 (C16-1) or no PHASE pushed it below zero inside the field *)
 Theorem count_is_eof_partial :
-  forall (db : database) (A : Alg) (f : field) (rt : ctype) (s n e : Z),
-    wf db f -> 0 <= n -> covered A db rt f s n -> noclamp db f ->
-    impl_eof db f = Some e ->
-    read_count A db rt f s n = Some (Z.min n (Z.max 0 (e - s))).
+  forall (db : database) (v : variant) (A : Alg) (f : field) (rt : ctype) (s n e : Z),
+    wf db f -> 0 <= s -> 0 <= n -> covered A db v rt f s n ->
+    v_clamp v = true \/ noclamp db f ->
+    impl_eof db v f = Some e ->
+    read_count A db v rt f s n = Some (Z.min n (Z.max 0 (e - s))).
 Proof. exact count_is_eof. Qed.
+
+(* with the repairs (C01-2/3/4, C16-1): every field without MPLEX, every window *)
+Theorem count_is_eof_repaired :
+  forall (A : Alg) (db : database) (v : variant) (f : field) (rt : ctype) (s n e : Z),
+    read_repaired v -> v_clamp v = true -> wf db f -> mplex_free f -> 0 <= s -> 0 <= n ->
+    impl_eof db v f = Some e ->
+    read_count A db v rt f s n = Some (Z.min n (Z.max 0 (e - s))).
+Proof. exact C16.WitnessProofs.count_is_eof_repaired. Qed.
 
 (* fields without an end (INDEX and what is derived from INDEX alone) return every sample asked for *)
 Theorem count_without_eof_partial :
-  forall (db : database) (A : Alg) (f : field) (rt : ctype) (s n : Z),
-    wf db f -> 0 <= n -> covered A db rt f s n -> noclamp db f ->
-    impl_eof db f = None ->
-    read_count A db rt f s n = Some n.
+  forall (db : database) (v : variant) (A : Alg) (f : field) (rt : ctype) (s n : Z),
+    wf db f -> 0 <= n -> covered A db v rt f s n -> v_clamp v = true \/ noclamp db f ->
+    impl_eof db v f = None ->
+    read_count A db v rt f s n = Some n.
 Proof. exact count_no_eof. Qed.
 
-(* gd_eof is the documented end-of-field when nothing was clamped *)
+(* gd_eof is the documented end-of-field (reported as 0 when negative by the repaired code) *)
 Theorem eof_is_documented_partial :
-  forall (db : database) (f : field), wf db f -> noclamp db f ->
-    impl_eof db f = match eof db f with Fin x => Some x | Inf => None end.
+  forall (db : database) (v : variant) (f : field), wf db f -> v_clamp v = true \/ noclamp db f ->
+    impl_eof db v f = match eof db f with Fin x => Some (if v_clamp v then Z.max 0 x else x) | Inf => None end.
 Proof. exact impl_eof_spec. Qed.
 
 (* the documented beginning-of-field is the first sample made of real data only (every field) *)
@@ -47,31 +57,49 @@ Theorem documented_bof_is_first_real :
     forall k, is_real db f k = true <-> bof_raw db f <= k.
 Proof. exact is_real_iff. Qed.
 
-(* gd_bof is that sample for every field without PHASE *)
+(* gd_bof is that sample for every field without PHASE (every variant) ... *)
 Theorem bof_is_first_real_partial :
-  forall (db : database) (f : field), wf db f -> nophase f ->
-    forall k, is_real db f k = true <-> impl_bof db f <= k.
+  forall (db : database) (v : variant) (f : field), wf db f -> nophase f ->
+    forall k, is_real db f k = true <-> impl_bof db v f <= k.
 Proof. exact bof_is_first_real. Qed.
 
 Theorem bof_is_documented_partial :
-  forall (db : database) (f : field), wf db f -> nophase f -> impl_bof db f = spec_bof db f.
+  forall (db : database) (v : variant) (f : field), wf db f -> nophase f -> impl_bof db v f = spec_bof db f.
 Proof. exact impl_bof_nophase. Qed.
 
-(* gd_nframes = complete frames of the reference field + its frame offset (all inputs) *)
+(* ... and for EVERY field with the repairs C16-1 and C16-2: the full statement *)
+Theorem bof_is_first_real_repaired :
+  forall (db : database) (v : variant) (f : field) (k : Z),
+    v_clamp v = true -> v_bofceil v = true -> wf db f -> 0 <= k ->
+    (is_real db f k = true <-> impl_bof db v f <= k).
+Proof. exact bof_is_first_real_fixed. Qed.
+
+Theorem bof_is_documented_repaired :
+  forall (db : database) (v : variant) (f : field),
+    v_clamp v = true -> v_bofceil v = true -> wf db f -> impl_bof db v f = spec_bof db f.
+Proof. exact impl_bof_fixed. Qed.
+
+(* gd_nframes = complete frames of the reference field + frame offset (all inputs) *)
 Theorem nframes_is_complete_frames :
   forall (db : database) (id : N), impl_nframes db id = spec_nframes db id.
 Proof. exact nframes_ok. Qed.
 
 Theorem multirate_count_witness :
-  impl_eof db_32 m_ab = Some 1 /\ read_count XAlg db_32 F64 m_ab 1 2 = Some 1.
+  impl_eof db_32 v0 m_ab = Some 1 /\ read_count XAlg db_32 v0 F64 m_ab 1 2 = Some 1.
 Proof. exact witness_multirate_count. Qed.
 
 Theorem nested_phase_witness :
-  impl_eof db_a4 q_nested = Some 8 /\ read_count XAlg db_a4 F64 q_nested 0 10 = Some 2 /\
-  impl_bof db_a4 q_nested = 8 /\ is_real db_a4 q_nested 0 = true.
+  impl_eof db_a4 v0 q_nested = Some 8 /\ read_count XAlg db_a4 v0 F64 q_nested 0 10 = Some 2 /\
+  impl_bof db_a4 v0 q_nested = 8 /\ is_real db_a4 q_nested 0 = true.
 Proof. exact witness_nested_phase. Qed.
 
+Theorem repaired_witness :
+  impl_eof db_32 v1 m_ab = Some 1 /\ read_count XAlg db_32 v1 F64 m_ab 1 2 = Some 0 /\
+  impl_eof db_a4 v1 q_nested = Some 2 /\ read_count XAlg db_a4 v1 F64 q_nested 0 10 = Some 2 /\
+  impl_bof db_a4 v1 q_nested = 0.
+Proof. exact witness_repaired. Qed.
+
 Example count_hypotheses_inhabited :
-  wf db_ab m_ab /\ covered XAlg db_ab F64 m_ab 2 40 /\ noclamp db_ab m_ab /\
-  impl_eof db_ab m_ab = Some 8 /\ read_count XAlg db_ab F64 m_ab 2 40 = Some 6.
+  wf db_ab m_ab /\ covered XAlg db_ab v0 F64 m_ab 2 40 /\ noclamp db_ab m_ab /\
+  impl_eof db_ab v0 m_ab = Some 8 /\ read_count XAlg db_ab v0 F64 m_ab 2 40 = Some 6.
 Proof. exact count_example. Qed.
